@@ -4025,6 +4025,16 @@ reinit:
               }
               if (coap_send_internal(session, pdu) == COAP_INVALID_MID)
                 goto fail_resp;
+            } else if (lg_crcv->body_data && length % chunk &&
+                       block_opt == COAP_OPTION_BLOCK2) {
+              /*
+               * Only the end of the body can be shorter than the block size.
+               * Anything stored after this payload would leave a hole in the
+               * body: give up and forget the blocks received so far.
+               */
+              coap_log_warn("block: Short packet is not the end of the body\n");
+              lg_crcv->initial = 1;
+              goto fail_resp;
             }
             if ((session->block_mode & COAP_SINGLE_BLOCK_OR_Q) ||  block.bert)
               goto skip_app_handler;
